@@ -65,10 +65,11 @@ Theorem c09_vec_create_ok_iff o k :
   ((exists v, vec_create o k = Ok v) <->
    opts_accept o /\ (is_hist_kind k -> ~ In BUCKET_LABEL (map fst (o_consts o) ++ o_vars o))).
 Proof. exact (vec_create_ok_iff o k). Qed.
-(* Registry::new_custom: prefix absent or a (hence non-empty) metric name; every common label name valid *)
+(* Registry::new_custom: prefix absent or a (hence non-empty) metric name; every common label name valid and none
+   of them the reserved histogram label le (a common label is appended to every sample, histogram samples included) *)
 Theorem c09_registry_new_custom_iff {C} prefix labels :
   (exists r : regcore C, reg_new_custom prefix labels = Ok r) <->
-  prefix_ok prefix /\ Forall valid_label (common_names labels).
+  prefix_ok prefix /\ Forall valid_label (common_names labels) /\ ~ In reserved_le (common_names labels).
 Proof. exact (reg_new_custom_ok_iff prefix labels). Qed.
 (* register refuses a collector one of whose label names is a common label of the registry *)
 Theorem c09_register_refuses_clash {C} (r : regcore C) ds c d n :
@@ -124,7 +125,8 @@ Check c09_desc_ok_iff : forall fq help vars consts, NoDup (map fst consts) ->
    help <> [] /\ is_valid_metric_name fq = true
    /\ Forall (fun n => is_valid_label_name n = true) (map fst consts ++ vars) /\ NoDup (map fst consts ++ vars)).
 Check @c09_registry_new_custom_iff : forall C prefix labels,
-  (exists r : regcore C, reg_new_custom prefix labels = Ok r) <-> prefix_ok prefix /\ Forall valid_label (common_names labels).
+  (exists r : regcore C, reg_new_custom prefix labels = Ok r) <->
+  prefix_ok prefix /\ Forall valid_label (common_names labels) /\ ~ In reserved_le (common_names labels).
 Check @c09_gather_names_wf : forall C prefix labels collected,
   (exists r0 : regcore C, reg_new_custom prefix labels = Ok r0) ->
   map_like match labels with Some l => l | None => [] end ->
@@ -148,3 +150,6 @@ Print Assumptions c09_gather_names_wf.
 Print Assumptions c09_gather_names_wf_gen.
 Print Assumptions c09_gather_example.
 Print Assumptions c09_gather_needs_clash_check.
+
+(* ---- the executable spec written from the property text holds of the model, for ALL histories (Proofs/C09Spec.v) *)
+Require Export PV.Proofs.C09SpecPinned.
